@@ -349,8 +349,25 @@ impl Shrinker {
             if i >= best.events.len() {
                 break;
             }
-            let (r, k, c, a, b) = match &best.events[i] {
-                Ev::MatDot { r, k, c, a, b } => (*r, *k, *c, a.clone(), b.clone()),
+            let (r, k, c, la, lb, a, b) = match &best.events[i] {
+                Ev::MatDot { r, k, c, la, lb, a, b } => (*r, *k, *c, *la, *lb, a.clone(), b.clone()),
+                _ => continue,
+            };
+            // simpler storage first
+            for (nla, nlb) in [(0u8, 0u8), (0, lb), (la, 0)] {
+                if (nla, nlb) != (la, lb) {
+                    let mut cand = best.clone();
+                    cand.events[i] = Ev::MatDot { r, k, c, la: nla, lb: nlb, a: a.clone(), b: b.clone() };
+                    if self.accept(cand, best, bf) {
+                        break;
+                    }
+                }
+            }
+            if i >= best.events.len() {
+                break;
+            }
+            let (la, lb) = match &best.events[i] {
+                Ev::MatDot { la, lb, .. } => (*la, *lb),
                 _ => continue,
             };
             if r > 1 || c > 1 {
@@ -359,7 +376,7 @@ impl Shrinker {
                         let na: Vec<u32> = a[ri * k..(ri + 1) * k].to_vec();
                         let nb: Vec<u32> = (0..k).map(|l| b[l * c + cj]).collect();
                         let mut cand = best.clone();
-                        cand.events[i] = Ev::MatDot { r: 1, k, c: 1, a: na, b: nb };
+                        cand.events[i] = Ev::MatDot { r: 1, k, c: 1, la, lb, a: na, b: nb };
                         if self.accept(cand, best, bf) {
                             break 'outer;
                         }
@@ -369,7 +386,7 @@ impl Shrinker {
             if i >= best.events.len() {
                 break;
             }
-            if let Ev::MatDot { r: 1, k, c: 1, a, b } = best.events[i].clone() {
+            if let Ev::MatDot { r: 1, k, c: 1, la, lb, a, b } = best.events[i].clone() {
                 let (mut k, mut a, mut b) = (k, a, b);
                 let mut l = 0;
                 while k > 1 && l < k {
@@ -378,7 +395,7 @@ impl Shrinker {
                     na.remove(l);
                     nb.remove(l);
                     let mut cand = best.clone();
-                    cand.events[i] = Ev::MatDot { r: 1, k: k - 1, c: 1, a: na.clone(), b: nb.clone() };
+                    cand.events[i] = Ev::MatDot { r: 1, k: k - 1, c: 1, la, lb, a: na.clone(), b: nb.clone() };
                     if self.accept(cand, best, bf) {
                         k -= 1;
                         a = na;
